@@ -7,5 +7,6 @@ Descs == {
   D("slots", "none", {"slots", "args"}, TRUE),
   D("c-members", "none", {"cmember", "args"}, TRUE),
   D("new-required", "new-required", {"cmember", "args"}, TRUE),
+  D("unproxiable", "unproxiable", {"dict", "args"}, TRUE),
   D("base-only", "none", {"args"}, FALSE) }
 =============================================================================
